@@ -1,6 +1,6 @@
 //! Interval × Interval operators, set operations and unary functions on
 //! numeric intervals, checked member by member against the model in `dom.rs`.
-use super::dom::{Arith, C, D, Iv, meet, norm, subset};
+use super::dom::{Arith, C, D, Iv, meet, norm, norm_inf, subset};
 use datafusion_common::ScalarValue;
 use datafusion_expr_common::interval_arithmetic::{Interval, apply_operator};
 use datafusion_expr_common::operator::Operator;
@@ -180,72 +180,83 @@ pub fn run_set(dl: D, dr: D, f: &str, l: &Iv, r: &Iv) -> Result<Stat, String> {
         return Err("harness: mixed float set operation not modelled".into());
     }
     let (li, ri) = (mk(dl, l)?, mk(dr, r)?);
-    let (nl, nr) = (norm(dl, l), norm(dr, r));
-    let m = meet(dl, &nl, &nr);
+    // Two readings of an unbounded integer end: (A) the type extreme of the
+    // interval's own type, (B) genuinely infinite.  They differ only when an
+    // unbounded interval meets one whose end sits exactly at a type extreme, or
+    // across types.  A violation is reported only if the answer is wrong under
+    // BOTH readings.
+    type N = fn(D, &Iv) -> Iv;
+    let readings: [N; 2] = [norm, norm_inf];
     let mut st = Stat { checks: 1, ..Default::default() };
     let ctx = |res: &dyn std::fmt::Display| format!("{}.{f}({}) = {res}", dl.show_iv(l), dr.show_iv(r));
-    match f {
-        "intersect" => {
-            let res = match li.intersect(&ri) {
+    let mut verdicts: Vec<Option<String>> = vec![];
+    macro_rules! call {
+        ($e:expr) => {
+            match $e {
                 Ok(x) => x,
                 Err(_) => return Ok(Stat { impl_err: true, ..Default::default() }),
-            };
-            match res {
-                None => {
-                    st.claim = true;
-                    if let Some(m) = m {
-                        return Err(format!("{} but both contain e.g. {}", ctx(&"None"), dl.show_o(m.lo.or(m.hi))));
+            }
+        };
+    }
+    match f {
+        "intersect" => {
+            let res = call!(li.intersect(&ri));
+            for n in readings {
+                let (nl, nr) = (n(dl, l), n(dr, r));
+                let m = meet(dl, &nl, &nr);
+                verdicts.push(match &res {
+                    None => {
+                        st.claim = true;
+                        m.map(|m| format!("{} but both contain e.g. {}", ctx(&"None"), dl.show_o(m.lo.or(m.hi).or(Some(0)))))
                     }
-                }
-                Some(res) => {
-                    let (rdm, riv) = rd(&res)?;
-                    let nres = norm(rdm, &riv);
-                    st.claim = !subset(rdm, &nl, &nres) || !subset(rdm, &nr, &nres);
-                    if let Some(m) = m {
-                        if !subset(rdm, &m, &nres) {
-                            return Err(format!("{} does not contain the common values {}", ctx(&res), dl.show_iv(&m)));
+                    Some(res) => {
+                        let (rdm, riv) = rd(res)?;
+                        let nres = n(rdm, &riv);
+                        st.claim |= !subset(rdm, &nl, &nres) || !subset(rdm, &nr, &nres);
+                        match m {
+                            Some(m) if !subset(rdm, &m, &nres) => Some(format!("{} does not contain the common values {}", ctx(res), dl.show_iv(&m))),
+                            _ => None,
                         }
                     }
-                }
+                });
             }
         }
         "union" => {
-            let res = match li.union(&ri) {
-                Ok(x) => x,
-                Err(_) => return Ok(Stat { impl_err: true, ..Default::default() }),
-            };
+            let res = call!(li.union(&ri));
             let (rdm, riv) = rd(&res)?;
-            let nres = norm(rdm, &riv);
             st.claim = riv.lo.is_some() || riv.hi.is_some();
-            if !subset(rdm, &nl, &nres) || !subset(rdm, &nr, &nres) {
-                return Err(format!("{} does not contain both operands", ctx(&res)));
+            for n in readings {
+                let (nl, nr, nres) = (n(dl, l), n(dr, r), n(rdm, &riv));
+                verdicts.push((!subset(rdm, &nl, &nres) || !subset(rdm, &nr, &nres)).then(|| format!("{} does not contain both operands", ctx(&res))));
             }
         }
         "contains" => {
-            let res = match li.contains(&ri) {
-                Ok(x) => x,
-                Err(_) => return Ok(Stat { impl_err: true, ..Default::default() }),
-            };
+            let res = call!(li.contains(&ri));
             let rb = rd_bool(&res)?;
             st.claim = rb.0 == rb.1;
-            if rb == (true, true) && !subset(dl, &nr, &nl) {
-                return Err(format!("{} (certainly a superset) but the right operand has values outside the left", ctx(&res)));
-            }
-            if rb == (false, false) && m.is_some() {
-                return Err(format!("{} (certainly disjoint) but the operands share values", ctx(&res)));
+            for n in readings {
+                let (nl, nr) = (n(dl, l), n(dr, r));
+                verdicts.push(if rb == (true, true) && !subset(dl, &nr, &nl) {
+                    Some(format!("{} (certainly a superset) but the right operand has values outside the left", ctx(&res)))
+                } else if rb == (false, false) && meet(dl, &nl, &nr).is_some() {
+                    Some(format!("{} (certainly disjoint) but the operands share values", ctx(&res)))
+                } else {
+                    None
+                });
             }
         }
         "superset" | "superset_strict" => {
-            let res = match li.is_superset(&ri, f == "superset_strict") {
-                Ok(x) => x,
-                Err(_) => return Ok(Stat { impl_err: true, ..Default::default() }),
-            };
+            let res = call!(li.is_superset(&ri, f == "superset_strict"));
             st.claim = res;
-            if res && !subset(dl, &nr, &nl) {
-                return Err(format!("{} but the right operand has values outside the left", ctx(&res)));
+            for n in readings {
+                let (nl, nr) = (n(dl, l), n(dr, r));
+                verdicts.push((res && !subset(dl, &nr, &nl)).then(|| format!("{} but the right operand has values outside the left", ctx(&res))));
             }
         }
         _ => return Err(format!("harness: unknown set fn {f}")),
+    }
+    if verdicts.iter().all(|v| v.is_some()) {
+        return Err(verdicts.swap_remove(0).unwrap());
     }
     Ok(st)
 }
